@@ -716,6 +716,8 @@ pub const F_BORROWED: u8 = 2;
 pub const F_DATA_HIGH: u8 = 4;
 /// with F_BORROWED: after the (possibly failing) first init, clear all faults and initialise again through the same interface
 pub const F_RETRY: u8 = 8;
+/// the reset pin is a zero-sized type (light path, not combined with F_BORROWED)
+pub const F_ZST_RST: u8 = 16;
 impl Cfg {
     pub fn tiny(fw: u16, fh: u16, c666: bool, tr: Transport, win: (u16, u16, u16, u16), orient: u8) -> Cfg {
         Cfg {
@@ -858,6 +860,9 @@ where
             }
             drop(di);
             r
+        } else if cfg.rst && cfg.flags & F_ZST_RST != 0 {
+            let b = if opts_first { apply_opts(Builder::new(model, di), cfg).reset_pin(ZRst::attach(bd)) } else { apply_opts(Builder::new(model, di).reset_pin(ZRst::attach(bd)), cfg) };
+            b.init(&mut delay).map(|d| light_state(&d)).map_err(|e| classify_init(&e))
         } else if cfg.rst {
             let b = if opts_first { apply_opts(Builder::new(model, di), cfg).reset_pin(VPin::new(bd, PIN_RST)) } else { apply_opts(Builder::new(model, di).reset_pin(VPin::new(bd, PIN_RST)), cfg) };
             b.init(&mut delay).map(|d| light_state(&d)).map_err(|e| classify_init(&e))
